@@ -2,8 +2,22 @@
 import json
 import os
 
-from harness import checklib, tlcrun
+from harness import checklib, rec, tlcrun
 from harness.drivers import graph, history
+
+
+def _make_history(profile, tid, s, nv, steps):
+    if profile == 'reorder':
+        return history.reorder_history(tid, s, nv, steps)
+    if profile == 'reorder_many':
+        return history.reorder_history(tid, s, nv, steps, held_n=40)
+    if profile == 'decl':
+        return history.decl_history(tid, s, steps)
+    if profile == 'allfun':
+        import itertools
+        ps = list(itertools.permutations(history.ALL_NAMES[:nv]))
+        return history.allfun_reorder_trace(tid, s, nv, list(ps[tid % len(ps)]))
+    return history.random_history(tid, s, nv, steps, profile=profile)
 
 
 # ---------------- worker tasks (top level: picklable) ----------------
@@ -17,18 +31,12 @@ def history_task(shard, first_tid, ntraces, seed, nvars_choices, steps,
             tid = first_tid + i
             s = seed * 100003 + tid
             nv = nvars_choices[tid % len(nvars_choices)]
-            if profile == 'reorder':
-                tr = history.reorder_history(tid, s, nv, steps)
-            elif profile == 'reorder_many':
-                tr = history.reorder_history(tid, s, nv, steps, held_n=40)
-            elif profile == 'decl':
-                tr = history.decl_history(tid, s, steps)
-            elif profile == 'allfun':
-                import itertools
-                ps = list(itertools.permutations(history.ALL_NAMES[:nv]))
-                tr = history.allfun_reorder_trace(tid, s, nv, list(ps[tid % len(ps)]))
-            else:
-                tr = history.random_history(tid, s, nv, steps, profile=profile)
+            try:
+                tr = _make_history(profile, tid, s, nv, steps)
+            except Exception as e:    # the real code broke the driver: keep what was recorded
+                tr = rec.salvage(e)
+                if tr is None:
+                    raise
             f.write(tr.dumps() + '\n')
             fps |= checklib.event_fingerprints(tr.events)
             events += len(tr.events)
@@ -56,9 +64,13 @@ def graph_task(shard, dot, part, nparts, limit, seed, names, declared,
             acts = [last[n] for n in p]
             rp = graph.Replayer(first_tid + i, names, declared, seed=seed,
                                 meta=dict(driver='graph'))
-            for a in acts:
-                if a != ('init',):
-                    rp.step(a)
+            try:
+                for a in acts:
+                    if a != ('init',):
+                        rp.step(a)
+            except Exception as e:
+                if rec.salvage(e) is None:
+                    raise
             f.write(rp.tr.dumps() + '\n')
             fps |= checklib.event_fingerprints(rp.tr.events)
             events += len(rp.tr.events)
